@@ -37,7 +37,7 @@
 (***************************************************************************)
 EXTENDS Integers, Sequences, FiniteSets, TLC, Json
 
-VARIABLES logs, stable, enc, open, hist,
+VARIABLES logs, stable, enc, open, hist, above,
           l,       \* next record to consume
           dom,     \* index ranks observed by the current program (from its Reset record)
           kdom,    \* key ids observed by the current program
@@ -47,12 +47,12 @@ VARIABLES logs, stable, enc, open, hist,
 
 RS == INSTANCE RaftStore WITH
         Idx <- 1..62, Bounds <- 0..63, Keys <- 1..15, BVals <- 1..15, UVals <- 1..15,
-        EntryChoices <- {}, SeqChoices <- {}, ProtoChoices <- {}, RangeChoices <- {}, EncChoices <- {},
+        EntryChoices <- {}, SeqChoices <- {}, ProtoChoices <- {}, RangeChoices <- {}, EncChoices <- {}, Above <- {},
         KeepHist <- FALSE, MaxOps <- 0
 
 Trace == ndJsonDeserialize("trace.ndjson")
 
-tvars == <<logs, stable, enc, open, hist, l, dom, kdom, cpass>>
+tvars == <<logs, stable, enc, open, hist, above, l, dom, kdom, cpass>>
 
 LogWrites    == {"StoreLog", "StoreLogs", "StoreLogProto", "DeleteRange"}
 StableWrites == {"Set", "SetU"}
@@ -88,6 +88,7 @@ Step ==
             [] ev.ev = "Set"           -> RS!Set(ev.k, ev.v)
             [] ev.ev = "SetU"          -> RS!SetUint64(ev.k, ev.v)
             [] ev.ev = "Convert"       -> RS!ConvertToProto
+       /\ above' = IF ev.ev = "Reset" THEN {ev.above[j] : j \in 1..Len(ev.above)} ELSE above
        /\ dom'  = IF ev.ev = "Reset" THEN ev.dom ELSE dom
        /\ kdom' = IF ev.ev = "Reset" THEN ev.kdom ELSE kdom
        /\ cpass' =
